@@ -1,7 +1,114 @@
-(* C07 - placeholder; theorems are added as proofs land *)
-From Coq Require Import ZArith List.
-From NutsV Require Import lib.Fp model.DualAvg model.StepSize.
+(* C07 - Step-size adaptation steers acceptance to the target and stays bounded.
+   Statements over model/StepSize.v (exact arithmetic in log space; w n = 1/(n+t0), c n = sqrt(n)/gamma,
+   m n = n^-k, cap = ln(max_step_size) are parameter sequences); proofs in proofs/StepSize_facts.v.
+   The bit-exact binary64 recurrences (model/DualAvg.v) are tied to the code by correspondence. *)
+From Coq Require Import QArith Qminmax List Arith Morphisms.
+From NutsV Require Import model.StepSize proofs.StepSize_facts.
 Import ListNotations.
-Example C07_model_runs : length (run_da 0 0 0 0 0 0 0 []) = 1%nat.
+
+(* raising any acceptance statistic never lowers any later log step size nor the averaged one *)
+Theorem C07_da_monotone :
+  forall (w c m : nat -> Q) (mu cap target : Q),
+    (forall n, 0 <= w n /\ w n <= 1) -> (forall n, 0 <= c n) -> (forall n, 0 <= m n /\ m n <= 1) ->
+    forall (a a' : list Q) (s : daq), Forall2 Qle a a' ->
+      Forall2 (fun t t' => q_h t' <= q_h t /\ q_x t <= q_x t' /\ q_xbar t <= q_xbar t')
+              (daq_trace w c m mu cap target s a) (daq_trace w c m mu cap target s a').
+Proof. exact da_monotone_same_start. Qed.
+Print Assumptions C07_da_monotone.
+
+(* every update yields a log step size <= ln(max_step_size), and a finite lower bound *)
+Theorem C07_da_bounded :
+  forall (w c m : nat -> Q) (mu cap target : Q) (s : daq) (accs : list Q),
+    Forall (fun t => q_x t <= cap) (daq_trace w c m mu cap target s accs).
+Proof. exact da_bounded. Qed.
+Print Assumptions C07_da_bounded.
+
+Theorem C07_da_lower_bound :
+  forall (w c m : nat -> Q) (mu cap target : Q),
+    (forall n, 0 <= w n /\ w n <= 1) -> (forall n, 0 <= c n) ->
+    forall (accs : list Q) (s : daq),
+      Forall (fun a => 0 <= a /\ a <= 1) accs -> target - 1 <= q_h s /\ q_h s <= target ->
+      Forall (fun t => Qmin (mu - target * c (Nat.pred (q_n t))) cap <= q_x t /\ q_x t <= cap)
+             (daq_trace w c m mu cap target s accs).
+Proof. exact x_lower_bound. Qed.
+Print Assumptions C07_da_lower_bound.
+
+(* the averaged log step size is the documented weighted average of the iterates *)
+Theorem C07_da_bar_is_weighted_average :
+  forall (w c m : nat -> Q) (mu cap target : Q) (accs : list Q) (s : daq),
+    q_xbar (daq_run w c m mu cap target s accs) ==
+    da_resid m (q_n s) (length accs) * q_xbar s +
+    qdot (da_weights m (q_n s) (length accs)) (map q_x (daq_trace w c m mu cap target s accs)).
+Proof. exact da_bar_is_weighted_average. Qed.
+Print Assumptions C07_da_bar_is_weighted_average.
+
+Theorem C07_da_weights_are_a_distribution :
+  (forall (m : nat -> Q) (k n : nat), da_resid m n k + StepSize_facts.qsum (da_weights m n k) == 1) /\
+  (forall m : nat -> Q, (forall n, 0 <= m n /\ m n <= 1) ->
+     forall k n, Forall (fun x => 0 <= x) (da_weights m n k)).
+Proof. split; [exact da_weights_sum | exact da_weights_nonneg]. Qed.
+Print Assumptions C07_da_weights_are_a_distribution.
+
+(* Adam: each update moves the step size up exactly when the smoothed acceptance error is positive *)
+Theorem C07_adam_direction :
+  forall (beta1 beta2 eps lr target : Q) (sq : Q -> Q) (b1t b2t : nat -> Q),
+    0 < lr -> 0 < eps -> (forall x, 0 <= sq x) ->
+    forall (s : adq) (a : Q), b1t (S (a_t s)) < 1 ->
+      (a_x s < a_x (adq_advance beta1 beta2 eps lr target sq b1t b2t s a) <->
+       0 < a_m (adq_advance beta1 beta2 eps lr target sq b1t b2t s a)) /\
+      (a_x (adq_advance beta1 beta2 eps lr target sq b1t b2t s a) == a_x s <->
+       a_m (adq_advance beta1 beta2 eps lr target sq b1t b2t s a) == 0) /\
+      (a_x (adq_advance beta1 beta2 eps lr target sq b1t b2t s a) < a_x s <->
+       a_m (adq_advance beta1 beta2 eps lr target sq b1t b2t s a) < 0).
+Proof. exact adam_direction. Qed.
+Print Assumptions C07_adam_direction.
+
+Theorem C07_adam_smoothed_acceptance :
+  forall (beta1 beta2 eps lr target : Q) (sq : Q -> Q) (b1t b2t : nat -> Q) (l : list Q) (s : adq),
+    a_m s == 0 ->
+    a_m (adq_run beta1 beta2 eps lr target sq b1t b2t s l) == (1 - beta1) * adam_wsum beta1 target l.
+Proof. exact adam_m_closed_form. Qed.
+Print Assumptions C07_adam_smoothed_acceptance.
+
+(* the initial doubling / halving search brackets the target and evaluates at most 101 steps *)
+Theorem C07_search_evaluations :
+  forall (acc : Q -> option Q) (initial target : Q), (search_evals acc initial target <= 101)%nat.
+Proof. exact search_evals_le_101. Qed.
+Print Assumptions C07_search_evaluations.
+
+Theorem C07_search_brackets_forward :
+  forall (acc : Q -> option Q) (initial target : Q), Proper (Qeq ==> eq) acc ->
+  forall (a0 s : Q) (k : nat),
+    acc initial = Some a0 -> target < a0 -> initial <= hi_limit ->
+    search acc initial target = SFound s k ->
+    (1 <= k < 100)%nat /\ s == initial * qpow 2 k /\
+    (exists a, acc s = Some a /\ (a <= target \/ hi_limit < s)) /\
+    (exists a', acc (s / 2) = Some a' /\ target < a' /\ s / 2 <= hi_limit).
+Proof. exact search_brackets_forward_half. Qed.
+Print Assumptions C07_search_brackets_forward.
+
+Theorem C07_search_brackets_backward :
+  forall (acc : Q -> option Q) (initial target : Q), Proper (Qeq ==> eq) acc ->
+  forall (a0 s : Q) (k : nat),
+    acc initial = Some a0 -> a0 <= target -> (1 <= k)%nat ->
+    search acc initial target = SFound s k ->
+    (k < 100)%nat /\ s == initial / qpow 2 k /\
+    (exists a, acc s = Some a /\ (target <= a \/ s < lo_limit)) /\
+    (exists a', acc (2 * s) = Some a' /\ a' < target /\ lo_limit <= 2 * s).
+Proof. exact search_brackets_backward_double. Qed.
+Print Assumptions C07_search_brackets_backward.
+
+(* both per-leapfrog acceptance statistics lie in [0,1] *)
+Theorem C07_accept_stat_range :
+  (forall e : Q, 0 < e -> e <= 1 -> 0 <= acc_stat e /\ acc_stat e <= 1) /\
+  (forall e f : Q, 0 < e -> e <= 1 -> e <= f -> 0 < acc_stat_sym e f /\ acc_stat_sym e f <= 1).
+Proof. split; [exact accept_stat_range | exact accept_stat_sym_range]. Qed.
+Print Assumptions C07_accept_stat_range.
+
+Example C07_nonvacuous :
+  let w := fun n => 1 # Pos.of_nat (n + 10) in
+  let c := fun n => inject_Z (Z.of_nat n) in
+  let m := fun n => 1 # Pos.of_nat n in
+  Qred (q_x (daq_run w c m 0 (3 # 1) (4 # 5) {| q_x := 0; q_xbar := 0; q_h := 0; q_n := 1 |} [1; 0])) = (-1 # 10).
 Proof. vm_compute. reflexivity. Qed.
-Print Assumptions C07_model_runs.
+Print Assumptions C07_nonvacuous.
